@@ -26,12 +26,13 @@ Verdicts(c) ==
                    runs == IF c.method = "tree" THEN Subtree(c.calls[i]) ELSE {c.calls[i]}
                    want == IF under THEN Cardinality({r \in runs : AFires(c.target, r)}) ELSE 0
                    \* mechanism: at #enter the receiver parameter has not been captured yet, the constraint on it is not applied
-                   mwant == IF c.path = "enter" THEN Cardinality(runs)
+                   \* (the same holds for the globals the method reads: they are reported at entry, before the parameters)
+                   mwant == IF c.path \in {"enter", "external"} THEN Cardinality(runs)
                             ELSE IF under THEN Cardinality({r \in runs : MFires(c.target, r)}) ELSE 0
                IN (IF Len(evs) = want THEN {}
                    ELSE {<<IF Len(evs) > want THEN "WrongReceiverObserved" ELSE "ReceiverMissed",
                            IF Len(evs) = mwant THEN "mech" ELSE "other">>}) \cup
-                  (IF c.path = "enter" \/ \A k \in DOMAIN evs : (c.method = "prop" \/ evs[k].v = ExpectedV(c, i))
+                  (IF c.path \in {"enter", "external"} \/ \A k \in DOMAIN evs : (c.method = "prop" \/ evs[k].v = ExpectedV(c, i))
                                             /\ (c.target \in Classes \/ evs[k].self = (IF c.method = "tree" THEN c.target ELSE c.calls[i]))
                    THEN {} ELSE {<<"EventContent", "">>})
              : i \in DOMAIN c.calls }
